@@ -653,6 +653,7 @@ func shiftProbeOnWholeSource(c *Ctx, rule string) {
 			// (lines[i] != shifted[i]). Looking the text up anywhere in the shifted output takes a raw-string line that
 			// happens to equal some line of code (a lone `}`) for code, and re-indents it.
 			samePos := false
+			idxTokens := map[string]types.Object{}
 			rangeKey := map[types.Object]types.Object{} // range value variable → key variable of the same range statement
 			ast.Inspect(fd.Body, func(y ast.Node) bool {
 				if rs, ok := y.(*ast.RangeStmt); ok {
@@ -671,33 +672,119 @@ func shiftProbeOnWholeSource(c *Ctx, rule string) {
 						e = ast.Unparen(cv.Args[0])
 					}
 				}
+				// (a field of the element: lines[i].text; a field of the range value: line.text)
+				for {
+					if fs, ok := e.(*ast.SelectorExpr); ok {
+						if _, isField := info.Selections[fs]; isField {
+							e = ast.Unparen(fs.X)
+							continue
+						}
+					}
+					break
+				}
 				switch v := e.(type) {
 				case *ast.IndexExpr:
 					if id, ok := ast.Unparen(v.Index).(*ast.Ident); ok {
 						return info.ObjectOf(id)
 					}
+					// the same offset expression on both sides (lines[i+1] != shifted[i+1]): one token per spelling
+					txt := types.ExprString(v.Index)
+					if idxTokens[txt] == nil {
+						idxTokens[txt] = types.NewVar(v.Index.Pos(), p.Types, "·idx:"+txt, types.Typ[types.Int])
+					}
+					return idxTokens[txt]
 				case *ast.Ident:
 					return rangeKey[info.ObjectOf(v)]
 				}
 				return nil
 			}
-			ast.Inspect(fd.Body, func(y ast.Node) bool {
-				switch v := y.(type) {
-				case *ast.BinaryExpr:
-					if v.Op == token.NEQ || v.Op == token.EQL {
-						if a, b := indexOf(v.X), indexOf(v.Y); a != nil && a == b {
-							samePos = true
+			// where the result is read: this function, or — when the probe is a helper that hands the shifted text back —
+			// the functions that call it
+			scopes := []*ast.FuncDecl{fd}
+			for depth := 0; depth < 2; depth++ {
+				for _, sfd := range append([]*ast.FuncDecl{}, scopes...) {
+					for _, cfd := range allFuncDecls(p) {
+						if cfd.Body == nil {
+							continue
 						}
-					}
-				case *ast.CallExpr:
-					if fn := calleeOf(info, v); fn != nil && (fullName(fn) == "bytes.Equal" || fullName(fn) == "bytes.Compare" || fullName(fn) == "strings.Compare") && len(v.Args) == 2 {
-						if a, b := indexOf(v.Args[0]), indexOf(v.Args[1]); a != nil && a == b {
-							samePos = true
+						calls := false
+						ast.Inspect(cfd.Body, func(q ast.Node) bool {
+							if cc, ok := q.(*ast.CallExpr); ok && types.Object(calleeOf(info, cc)) == info.Defs[sfd.Name] {
+								calls = true
+							}
+							return !calls
+						})
+						dup := false
+						for _, have := range scopes {
+							if have == cfd {
+								dup = true
+							}
+						}
+						if calls && !dup {
+							scopes = append(scopes, cfd)
 						}
 					}
 				}
-				return true
-			})
+			}
+			// … and the package functions those hand the lines to (a writer that receives both slices)
+			for _, sfd := range append([]*ast.FuncDecl{}, scopes...) {
+				ast.Inspect(sfd.Body, func(q ast.Node) bool {
+					cc, ok := q.(*ast.CallExpr)
+					if !ok {
+						return true
+					}
+					fn := calleeOf(info, cc)
+					if fn == nil || fn.Pkg() != p.Types {
+						return true
+					}
+					for _, cfd := range allFuncDecls(p) {
+						if info.Defs[cfd.Name] != types.Object(fn) || cfd.Body == nil {
+							continue
+						}
+						dup := false
+						for _, have := range scopes {
+							if have == cfd {
+								dup = true
+							}
+						}
+						if !dup {
+							scopes = append(scopes, cfd)
+						}
+					}
+					return true
+				})
+			}
+			for _, sfd := range scopes[1:] {
+				ast.Inspect(sfd.Body, func(y ast.Node) bool {
+					if rs, ok := y.(*ast.RangeStmt); ok {
+						if k, ok := rs.Key.(*ast.Ident); ok {
+							if v, ok := rs.Value.(*ast.Ident); ok {
+								rangeKey[info.ObjectOf(v)] = info.ObjectOf(k)
+							}
+						}
+					}
+					return true
+				})
+			}
+			for _, sfd := range scopes {
+				ast.Inspect(sfd.Body, func(y ast.Node) bool {
+					switch v := y.(type) {
+					case *ast.BinaryExpr:
+						if v.Op == token.NEQ || v.Op == token.EQL {
+							if a, b := indexOf(v.X), indexOf(v.Y); a != nil && a == b {
+								samePos = true
+							}
+						}
+					case *ast.CallExpr:
+						if fn := calleeOf(info, v); fn != nil && (fullName(fn) == "bytes.Equal" || fullName(fn) == "bytes.Compare" || fullName(fn) == "strings.Compare") && len(v.Args) == 2 {
+							if a, b := indexOf(v.Args[0]), indexOf(v.Args[1]); a != nil && a == b {
+								samePos = true
+							}
+						}
+					}
+					return true
+				})
+			}
 			c.check(samePos, rule, funcKey(p, fd)+"|probe-read-position-by-position", c.pos(call.Pos()), "a line and the shifted line at the same index are compared",
 				fmt.Sprintf("%s does not compare each line with the line gofmt gave back at the same position: whether a line belongs to a raw string literal is then decided by its text alone, and a line of the literal that equals some line of code (a lone `}`) is re-indented — the string's value changes, and again on every run", fd.Name.Name))
 			c.check(bad == "", rule, funcKey(p, fd)+"|shift-probe-on-whole-source", c.pos(call.Pos()), "the indent-and-reformat probe runs on text gofmt produced (or the original source), never on a piece of it",
